@@ -7,13 +7,13 @@ state, and its link to the raw monitor `guardedNoCmd`.
 -/
 namespace TaskModel.Sched.S7
 
-/-- a guard checked before a slot is taken fails: platform, `requires`, enum -/
-def earlyBlocked (d : TaskDef) : Bool := !d.platformOk || !d.requiresOk || !d.enumOk
+/-- a guard checked before a slot is taken fails: platform, `requires`, compilation, enum -/
+def earlyBlocked (d : TaskDef) : Bool := !d.platformOk || !d.requiresOk || !d.compileOk || !d.enumOk
 /-- a guard checked after the dependencies fails: precondition, prompt without `--yes` -/
 def lateBlocked (F : Flags) (d : TaskDef) : Bool := !d.precondOk || (d.prompt && !F.yes)
 /-- some guard fails (the expression `guardedNoCmd` uses) -/
 def blockedD (F : Flags) (d : TaskDef) : Bool :=
-  !d.platformOk || !d.requiresOk || !d.enumOk || !d.precondOk || (d.prompt && !F.yes)
+  !d.platformOk || !d.requiresOk || !d.compileOk || !d.enumOk || !d.precondOk || (d.prompt && !F.yes)
 
 theorem blockedD_split (F : Flags) (d : TaskDef) : blockedD F d = (earlyBlocked d || lateBlocked F d) := by
   simp [blockedD, earlyBlocked, lateBlocked, Bool.or_assoc]
@@ -22,12 +22,13 @@ theorem blockedD_split (F : Flags) (d : TaskDef) : blockedD F d = (earlyBlocked 
 def earlyRes (d : TaskDef) : Option Res :=
   if !d.platformOk then some .ok
   else if !d.requiresOk then some (.typed 206)
+  else if !d.compileOk then some .generic
   else if !d.enumOk then some (.typed 207)
   else none
 
 theorem earlyRes_some (d : TaskDef) : (earlyRes d).isSome = earlyBlocked d := by
   unfold earlyRes earlyBlocked
-  cases d.platformOk <;> cases d.requiresOk <;> cases d.enumOk <;> rfl
+  cases d.platformOk <;> cases d.requiresOk <;> cases d.compileOk <;> cases d.enumOk <;> rfl
 
 /-- phases in which no command of the activation is or has been running -/
 def cmdFree : Phase → Bool
@@ -75,7 +76,10 @@ theorem freshAct_earlyRes (P : Program) (F : Flags) (c : Config) (kind : Kind) (
       · rename_i h2
         split at h
         · rename_i h3; cases h; simp [h1, h2, h3]
-        · cases h
+        · rename_i h3
+          split at h
+          · rename_i h4; cases h; simp [h1, h2, h3, h4]
+          · cases h
 
 theorem freshAct_unknown (P : Program) (F : Flags) (c : Config) (kind : Kind) (t : Nat) (h : P[t]? = none) :
     (freshAct P F c kind t).phase = .early ∧ (freshAct P F c kind t).res = .typed 200 := by
